@@ -40,6 +40,8 @@ type Program struct {
 	assumptions map[string]bool
 	intrCache   sync.Map // *ssa.Function -> intrinsicFn or nil marker
 	noGo        map[string]bool
+	externs     map[*ssa.Function]*ssa.Function
+	needAsmStub bool
 }
 
 type stubEntry struct {
@@ -146,7 +148,7 @@ func LoadProgram(spec LoadSpec) (*Program, error) {
 	prog.Build()
 	P := &Program{prog: prog, fset: fset, pkgs: pkgs, repoDir: spec.RepoDir,
 		stubs: map[string][]stubEntry{}, harness: map[string]*HarnessDecl{},
-		funcsUsed: map[*ssa.Function]bool{}, modelsUsed: map[string]int{}, assumptions: map[string]bool{}, noGo: map[string]bool{}}
+		funcsUsed: map[*ssa.Function]bool{}, modelsUsed: map[string]int{}, assumptions: map[string]bool{}, noGo: map[string]bool{}, externs: map[*ssa.Function]*ssa.Function{}}
 	P.mainPkg = spkgs[0]
 	if P.mainPkg == nil {
 		return nil, fmt.Errorf("no SSA package for %s", spec.PkgDir)
@@ -220,6 +222,23 @@ func LoadProgram(spec LoadSpec) (*Program, error) {
 					} else if len(parts) == 1 {
 						known[parts[0]] = ""
 					}
+				case "extern":
+					// //verif:extern <pkgpath>.<func>: bodiless harness declaration bound to an (unexported) function
+					tgt := strings.TrimSpace(m[2])
+					i := strings.LastIndex(tgt, ".")
+					if i < 0 {
+						return nil, fmt.Errorf("bad extern %q", tgt)
+					}
+					tp := prog.ImportedPackage(tgt[:i])
+					if tp == nil {
+						return nil, fmt.Errorf("extern: package %s not in program", tgt[:i])
+					}
+					tf := tp.Func(tgt[i+1:])
+					hf := P.mainPkg.Func(fd.Name.Name)
+					if tf == nil || hf == nil {
+						return nil, fmt.Errorf("extern: function %s not found", tgt)
+					}
+					P.externs[hf] = tf
 				case "nogo":
 					for _, p := range strings.Fields(m[2]) {
 						P.noGo[p] = true
